@@ -213,11 +213,16 @@ fn load_consumed_offsets(
         }),
     )?;
     for (topic, pos) in tpos {
+        // ~ offsets for a topic we did not ask about are of no use
+        let topic_ref = match assignments.topic_ref(&topic) {
+            Some(topic_ref) => topic_ref,
+            None => continue,
+        };
         for po in pos {
             if po.offset != -1 {
                 offs.insert(
                     TopicPartition {
-                        topic_ref: assignments.topic_ref(&topic).expect("non-assigned topic"),
+                        topic_ref,
                         partition: po.partition,
                     },
                     // the committed offset is the next message to be fetched, so
